@@ -2,7 +2,10 @@
    Directives: see ExtractCommon.v (ExtrOcamlBasic, ExtrOcamlNatInt, ExtrOcamlZBigInt, Z.ggcd). *)
 From Amgcl Require Import ExtractCommon.
 From Coq Require Import QArith Qcanon.
-From Amgcl Require Import Scalar QcInst Vec Crs Kernels MatOps Relax Sched GsSched IluSched.
+From Amgcl Require Import Scalar QcInst Vec Crs Kernels MatOps Relax Sched GsSched IluSched SchedTeam.
 Separate Extraction
   QcInst.QcS Scalar.is_zero Scalar.smax Scalar.smin
-  Vec Crs Kernels MatOps Relax Sched GsSched IluSched.
+  Vec Crs Kernels MatOps Relax Sched GsSched IluSched
+  SchedTeam.team_trunc SchedTeam.team_cyclic
+  SchedTeam.sptr_solve_team_trunc SchedTeam.ilu_parallel_solve_team_trunc SchedTeam.gs_par_sweep_team_trunc
+  SchedTeam.sptr_solve_team_cyclic SchedTeam.ilu_parallel_solve_team_cyclic SchedTeam.gs_par_sweep_team_cyclic.
